@@ -49,6 +49,12 @@ CUBES_3 = """<< <<Cube({" ", "A"}, <<"FREQ", "RA", "DEC">>, 2), Cube({" ", "A"},
    <<I({" "}), Cube({" ", "A"}, <<"STOKES", "FREQ", "RA", "DEC">>, 2), Cube({" ", "A"}, <<"RA", "DEC", "FREQ">>, 1),
       Cube({" ", "A"}, <<"RA", "FREQ", "DEC", "STOKES">>, 1)>> >>"""
 
+# the second encoding (one shape for every HDU): every file has the image HDUs 1 and 2 with the keys " " and "A", so that
+# every entry of a per-file list is in scope for every file; files 1 and 3 share the pixel scale, file 2 is 2x coarser
+FLAT_3 = """<< <<E, I({" ", "A"}), I({" ", "A"})>>,
+   <<I({" ", "A"}), I({" ", "A"}), I({" ", "A"})>>,
+   <<E, I({" ", "A"}), I({" ", "A"})>> >>"""
+
 ALL_FORMS = ("none", "one", "each")
 
 CFG = """SPECIFICATION Spec
@@ -75,18 +81,22 @@ CHECK_DEADLOCK FALSE
 """
 
 
-def mc_module(layouts_text, hforms=ALL_FORMS, kforms=ALL_FORMS, theorems=True, disjoint=True):
+def mc_module(layouts_text, hforms=ALL_FORMS, kforms=ALL_FORMS, theorems=True, disjoint=True, flat=False):
+    """flat: the second encoding of Collection.tla (one shape for every HDU, keys KeyRise/1000 degrees apart) - for the
+    tiling routes whose worker processes read the inputs themselves."""
+    table, obs, sky = ("FlatFileTable", "FlatObserved", "FlatSky") if flat else ("FileTable", "Observed", "Sky")
     defs = [
         ("MCLayouts", layouts_text),
         ("MCHduForms", tla.lit(set(hforms))),
         ("MCKeyForms", tla.lit(set(kforms))),
         ("MCHduVals", "0..(MaxHdus - 1)"),
-        "ASSUME EncodingInjective /\\ EncodingKeys" + (" /\\ EncodingDisjoint" if disjoint else ""),
-        "ASSUME JsonSerialize(IOEnv.OUT, [files |-> FileTable, names |-> [p \\in DOMAIN FileSeq |-> NameClass(p)]])",
+        "ASSUME EncodingInjective /\\ EncodingKeys" + (" /\\ EncodingDisjoint" if disjoint else "") + (" /\\ FlatEncoding" if flat else ""),
+        "ASSUME JsonSerialize(IOEnv.OUT, [files |-> %s, names |-> [p \\in DOMAIN FileSeq |-> NameClass(p)]])" % table,
         'Emit == Done => PrintT(<<"R", ToJson([lay |-> lay, hs |-> hs, ks |-> ks, '
-        'cli |-> [hdu |-> Tokens(hs), key |-> Tokens(ks)], '
-        'exp |-> [n \\in 1..N |-> Observed(dout[n])], sky |-> [n \\in 1..N |-> Sky(dout[n])], '
-        'tiling |-> [unit |-> MosaicUnit(dout), aligned |-> Aligned(dout), samesky |-> SameSky(dout)]])>>)',
+        'cli |-> [hdu |-> Tokens(hs), key |-> Tokens(ks)], cross |-> %s, '
+        'exp |-> [n \\in 1..N |-> %s(dout[n])], sky |-> [n \\in 1..N |-> %s(dout[n])], '
+        'tiling |-> [unit |-> MosaicUnit(dout), aligned |-> Aligned(dout), samesky |-> SameSky(dout)]])>>)'
+        % ("CrossValid(Files(lay), hs, ks)" if flat else "FALSE", obs, sky),
     ]
     if theorems:
         defs.insert(3, "ASSUME GuessIsFirstImage(4) /\\ CaseSpaceComplete(2) /\\ CubeSlicing")
@@ -205,6 +215,77 @@ def tlc_reuse(ctx):
     return root, sorted(recs, key=lambda r_: json.dumps(r_, sort_keys=True))
 
 
+CCFG = """SPECIFICATION CSpec
+CONSTANTS
+ MaxFiles = 2
+ NPaths = 2
+ MaxCalls = %d
+ MaxRewrites = 1
+ Memo = "%s"
+ RewriteTo <- MCRewriteTo
+ FileSeq <- MCLayouts
+ HduForms <- MCHduForms
+ KeyForms <- MCKeyForms
+ HduVals <- MCHduVals
+INVARIANT EachLoadExact
+INVARIANT NoMemoryOfEarlierLoads
+INVARIANT LoadsInScope
+INVARIANT Emit
+CHECK_DEADLOCK FALSE
+"""
+
+# the contents the two path names hold at first (1, 2) and the contents a path may be rewritten with (3): the same HDU of
+# the same path carries several keys; content 3 has the layout - and the file size - of content 1 and other keys
+CALL_LAYOUTS = '<< <<E, I({" ", "A"}), I({" ", "A"})>>, <<I({" ", "A"}), I({" ", "B"})>>, <<E, I({" ", "B"}), I({" ", "A"})>> >>'
+CALL_LAYOUTS_B = '<< <<E, I({" ", "A", "B"}), I({" ", "A"})>>, <<I({" ", "A"}), I({" ", "A", "B"})>>, <<E, I({" ", "B"}), I({" ", "A", "B"})>> >>'
+
+
+def tlc_calls(ctx):
+    """spec/CollectionCalls.tla: every history of two loads in one process over two path names (collections of one or two
+    paths, the same path possibly twice), a path possibly rewritten in place between the loads.  TLC checks EachLoadExact /
+    NoMemoryOfEarlierLoads in every state and emits the histories with what every load must deliver."""
+    outp = os.path.join(ctx.scratch, "files-calls.json")
+    forms = '{"none", "each"}' if ctx.quick else '{"none", "one", "each"}'
+    defs = [("MCLayouts", CALL_LAYOUTS if ctx.quick else CALL_LAYOUTS_B),
+            ("MCHduForms", forms), ("MCKeyForms", forms), ("MCHduVals", "0..2"), ("MCRewriteTo", "{3}"),
+            "ASSUME NPaths <= Len(FileSeq) /\\ \\A p \\in 1..NPaths : HasImage(FileSeq[p])",
+            "ASSUME EncodingInjective /\\ EncodingKeys",
+            ("ObsTable", "[p \\in DOMAIN FileSeq |-> [jj \\in DOMAIN FileSeq[p] |-> [k \\in FileSeq[p][jj].keys |-> "
+                         "Observed([path |-> 0, file |-> p, hdu |-> jj - 1, key |-> k])]]]"),
+            "ASSUME JsonSerialize(IOEnv.OUT, [files |-> FileTable, names |-> [p \\in 1..NPaths |-> NameClass(p + 1)], obs |-> ObsTable])",
+            'Emit == CDone => PrintT(<<"C", ToJson([ops |-> [n \\in DOMAIN oplog |-> [op |-> oplog[n].op, names |-> oplog[n].names, '
+            'cont |-> oplog[n].cont, hs |-> oplog[n].hs, ks |-> oplog[n].ks, '
+            'cli |-> [hdu |-> Tokens(oplog[n].hs), key |-> Tokens(oplog[n].ks)], '
+            'out |-> [i \\in DOMAIN oplog[n].out |-> <<oplog[n].out[i].file, oplog[n].out[i].hdu, oplog[n].out[i].key>>], '
+            'rel |-> IF oplog[n].op = "load" THEN <<OtherKeyBefore(n), RewrittenBefore(n), OtherHduBefore(n)>> '
+            'ELSE <<FALSE, FALSE, FALSE>>]]])>>)']
+    mod = tla.module("MCCalls", ["CollectionCalls", "Json", "IOUtils"], defs)
+    r = ctx.tlc("MCCalls", extra={"MCCalls.tla": mod}, cfg_text=CCFG % (2, "none"), env={"OUT": outp}, workers=3, timeout=3600)
+    recs = r.json_lines("C")
+    if not recs or not os.path.exists(outp):
+        ctx.machinery("TLC emitted no histories of load calls")
+    if not ctx.quick:
+        # the designs that remember the parsed geometry under a key that leaves out the WCS key / the file's stat stamp are
+        # refuted by the same invariants; the one whose key holds everything passes them
+        for memo in ("path-hdu-stat", "path-hdu-key"):
+            r2 = ctx.tlc("MCCalls", extra={"MCCalls.tla": mod}, cfg_text=CCFG % (2, memo), env={"OUT": outp + ".refuted"}, workers=2,
+                         timeout=3600, expect_violation=True, count=False)
+            if r2.violated not in ("EachLoadExact", "NoMemoryOfEarlierLoads"):
+                ctx.machinery("the design that remembers geometry under the key %r was not refuted by TLC: %r" % (memo, r2.violated))
+            ctx.note("memo_%s_refuted_by" % memo.replace("-", "_"), r2.violated)
+        ctx.tlc("MCCalls", extra={"MCCalls.tla": mod}, cfg_text=CCFG % (2, "all"), env={"OUT": outp + ".all"}, workers=4, timeout=3600, count=False)
+    table = json.load(open(outp))
+    root = ctx.mkdtemp("fits-calls")
+    with open(os.path.join(root, "names.json"), "w") as f:
+        json.dump([NAME_TEMPLATES[c] % (p_ + 1) for p_, c in enumerate(table["names"])], f)
+    with open(os.path.join(root, "obs.json"), "w") as f:
+        json.dump(table["obs"], f)
+    for q, hdus in enumerate(table["files"], start=1):
+        write_fits(os.path.join(root, "content-%d.fits" % q), hdus)
+    ctx.note("histories_of_load_calls", len(recs))
+    return root, sorted(recs, key=lambda r_: json.dumps(r_, sort_keys=True))
+
+
 # ---------------------------------------------------------------------------------------------------
 # writing the FITS files TLC describes
 # ---------------------------------------------------------------------------------------------------
@@ -218,7 +299,7 @@ def _wcs_cards(header, w, axes):
         if ax["name"] in cel:
             ctype, c = cel[ax["name"]]
             header["CTYPE%d%s" % (n, k)] = ctype
-            header["CRVAL%d%s" % (n, k)] = float(w["crval"][c])
+            header["CRVAL%d%s" % (n, k)] = w["crval"][c] / float(w.get("crvaldiv", 1))
             header["CRPIX%d%s" % (n, k)] = float(w["crpix"][c])
             header["CDELT%d%s" % (n, k)] = w["cdelt"][c] / 1000.0
             header["CUNIT%d%s" % (n, k)] = "deg"
@@ -553,10 +634,10 @@ def _judge(items, what, exp, paths, hform, kform):
             out.append(("V", "hdu-%s:wrong-hdu" % hform,
                         "%s()[%d] is not HDU %d of input %d: shape %s value %s crpix %s, selected HDU has shape %s value %s crpix %s"
                         % (what, k, e["hdu"], k, o["shape"], o.get("val", "-"), o["crpix"], e["shape"], e["val"], e["crpix"])))
-        elif o["crval"] != [float(x) for x in e["crval"]] or o["cdelt"] != [x / 1000.0 for x in e["cdelt"]]:
+        elif o["crval"] != [x / float(e.get("crvaldiv", 1)) for x in e["crval"]] or o["cdelt"] != [x / 1000.0 for x in e["cdelt"]]:
             out.append(("V", "key-%s:wrong-wcs" % kform,
                         "%s()[%d] carries the WCS with CRVAL %s CDELT %s; the selected key %r of HDU %d has CRVAL %s CDELT %s/1000"
-                        % (what, k, o["crval"], o["cdelt"], e["key"], e["hdu"], e["crval"], e["cdelt"])))
+                        % (what, k, o["crval"], o["cdelt"], e["key"], e["hdu"], [x / float(e.get("crvaldiv", 1)) for x in e["crval"]], e["cdelt"])))
         if str(o["id"]) != paths[k]:
             out.append(("D", "collection_id", "%s()[%d].collection_id is %r, input path is %r" % (what, k, o["id"], paths[k])))
     return out
@@ -574,13 +655,19 @@ def _export_matches(simple, given, exp):
     return True
 
 
-def _replay(root, idx, rec, exp, entry, hist, use_lib, res, container="list", kw=None, loader=None, tag=None):
-    """One (case, entry point): a history on one collection object against TLC's expectation `exp`.  -> True if quiet"""
+def _replay(root, idx, rec, exp, entry, hist, use_lib, res, container="list", kw=None, loader=None, tag=None, given_paths=None):
+    """One (case, entry point): a history on one collection object against TLC's expectation `exp`.  -> True if quiet
+    given_paths: the input paths themselves (default: the files of `root` that exp names, spelled in one of PATH_FORMS)"""
     hs, ks, cli = rec["hs"], rec["ks"], rec["cli"]
     flip = (idx // 4) % 2 == 1
     form = PATH_FORMS[(idx // 8) % 4]
-    paths = input_paths(root, exp, form)
-    apaths = input_paths(root, exp, form, for_argv=True)
+    if given_paths is not None:
+        form = "absolute"
+        paths = list(given_paths)
+        apaths = list(given_paths)
+    else:
+        paths = input_paths(root, exp, form)
+        apaths = input_paths(root, exp, form, for_argv=True)
     given = [str(p_) for p_ in (apaths if entry.startswith("cli") else paths)]
     hform, kform = hs["form"], ks["form"]
     names = {"d": "descriptions", "i": "images"}
@@ -650,7 +737,7 @@ def _replay(root, idx, rec, exp, entry, hist, use_lib, res, container="list", kw
     return not failed
 
 
-def replay_case(args):
+def _replay_case(args):
     """-> (findings, nontrivial, repeated) ; a finding is (severity, key, message, case): 'V' property monitor, 'D' drift."""
     root, idx, rec, entries, hists = args
     repo.setup()
@@ -671,7 +758,7 @@ def replay_case(args):
 REUSE_ENTRIES = ("load", "class", "loader", "tile_fits", "cli", "cli-multi-tan")
 
 
-def reuse_case(args):
+def _reuse_case(args):
     """The caller's argument objects (the hdu_index / wcs_key lists, or one CollectionLoader) used for a first collection
     (a whole history on it) and then for a SECOND collection over other files: TLC says what each must yield."""
     root, idx, rec, entry, hists = args
@@ -712,6 +799,135 @@ def reuse_case(args):
     return res, True, differs
 
 
+CALL_ENTRIES = ("load", "class", "loader", "tile_fits", "cli", "cli-multi-tan")
+
+
+def _fork_call(fn):
+    """fn() in a forked child of this process, which is thrown away afterwards: whatever the library keeps at module level
+    starts from what this worker has and is gone with the child.  -> ("ok", value) | ("raised", text)"""
+    import pickle
+    r, w = os.pipe()
+    pid = os.fork()
+    if pid == 0:
+        code = 0
+        try:
+            os.close(r)
+            try:
+                out = ("ok", fn())
+            except BaseException as e:  # noqa
+                out = ("raised", "%s: %s" % (type(e).__name__, str(e)[:300]))
+            with os.fdopen(w, "wb") as f:
+                pickle.dump(out, f)
+        except BaseException:  # noqa
+            code = 3
+        finally:
+            os._exit(code)
+    os.close(w)
+    with os.fdopen(r, "rb") as f:
+        data = f.read()
+    os.waitpid(pid, 0)
+    if not data:
+        return ("raised", "the child process died without a result")
+    return pickle.loads(data)
+
+
+def _rewrite_in_place(path, src):
+    """The file at `path` is rewritten in place with the contents of `src`: same path, same inode, new contents, a later
+    modification time (file systems stamp in coarse steps: the stamp is set, two seconds after the old one)."""
+    import shutil
+    st = os.stat(path)
+    shutil.copyfile(src, path)
+    os.utime(path, ns=(st.st_atime_ns, st.st_mtime_ns + 2000000000))
+
+
+def _describe_op(root, op, entry=None):
+    if op["op"] == "rewrite":
+        return "%s rewritten in place with other contents" % file_name(root, op["names"][0])
+    return "%s([%s], hdu_index=%s, wcs_key=%s)" % (entry or "load", ", ".join(file_name(root, p) for p in op["names"]), _show(op["hs"]), _show(op["ks"]))
+
+
+def _call_entry(idx, n, op):
+    ents = [e for e in CALL_ENTRIES if e != "cli-multi-tan" or multi_tan_applies(op)]
+    return ents[(idx + 2 * n) % len(ents)]
+
+
+def _run_history(root, idx, hist, only=None):
+    """The operations of one TLC history against the real code IN THIS PROCESS, on a directory of its own: path name p
+    holds contents p at first; "rewrite" rewrites a path in place; "load" builds a collection through one of the entry
+    points and enumerates descriptions(), images() and export_simple() against what TLC says this load delivers.
+    only = n: load n alone, on the disk as the earlier operations left it (none of the earlier loads is made).
+    -> ([(n, entry, findings)], number of the first load that failed | None)"""
+    import shutil
+    import tempfile
+    obs = json.load(open(os.path.join(root, "obs.json")))
+    d = tempfile.mkdtemp(prefix="h%d-" % idx, dir=root)
+    nnames = len(json.load(open(os.path.join(root, "names.json"))))
+
+    def path(p):
+        return os.path.join(d, file_name(root, p))
+
+    def content(q):
+        return os.path.join(root, "content-%d.fits" % q)
+    out, failed = [], None
+    try:
+        for p in range(1, nnames + 1):
+            shutil.copyfile(content(p), path(p))
+        for n, op in enumerate(hist["ops"]):
+            if op["op"] == "rewrite":
+                _rewrite_in_place(path(op["names"][0]), content(op["cont"][0]))
+                continue
+            if only is not None and n != only:
+                continue
+            exp = [dict(obs[f - 1][h][k], path=i + 1) for i, (f, h, k) in enumerate(op["out"])]
+            entry = _call_entry(idx, n, op)
+            rec = {"hs": op["hs"], "ks": op["ks"], "cli": op["cli"], "lay": op["cont"]}
+            found = []
+            ok = _replay(root, idx + n, rec, exp, entry, ["d", "i"] if (idx + n) % 2 == 0 else ["i", "d"], False, found,
+                         container=CONTAINERS[(idx + n) % 3], given_paths=[path(p) for p in op["names"]])
+            out.append((n, entry, found))
+            if not ok:
+                failed = n
+                break
+    finally:
+        shutil.rmtree(d, ignore_errors=True)
+    return out, failed
+
+
+def calls_case(args):
+    """One TLC history of load calls, replayed in a process of its own (a forked child).  A load that does not deliver
+    what TLC says is made again ALONE in another fresh process: when it is right there, the earlier operations of the
+    history are what broke it.  -> (findings, number of loads made)"""
+    root, idx, hist = args
+    repo.setup()
+    os.chdir(root)
+    ops = hist["ops"]
+    case0 = {"entry": "calls", "layouts": [op["cont"] for op in ops], "hdu_index": ops[-1]["hs"], "wcs_key": ops[-1]["ks"], "history": ops}
+    try:
+        kind, val = _fork_call(lambda: _run_history(root, idx, hist))
+        if kind != "ok":
+            return [("D", "calls:not-observed", "the history could not be replayed: %s" % val, case0)], 0
+        runs, failed = val
+        res = []
+        for n, entry, found in runs:
+            if n == failed and n > 0 and any(f[0] == "V" for f in found):
+                kind2, val2 = _fork_call(lambda: _run_history(root, idx, hist, only=n))
+                if kind2 == "ok" and val2[1] is None:
+                    first = [f for f in found if f[0] == "V"][0]
+                    rel = ops[n]["rel"]
+                    why = "other-key-before" if rel[0] else ("rewritten-file" if rel[1] else ("other-hdu-before" if rel[2] else "earlier-load"))
+                    before = "; ".join(_describe_op(root, o, _call_entry(idx, m, o) if o["op"] == "load" else None) for m, o in enumerate(ops[:n]))
+                    case = dict(first[3], history=ops, failing_load=n)
+                    res += [f for f in found if f[0] != "V"]
+                    res.append(("V", "%s:later-load:%s" % (entry, why),
+                                "in one process, after [%s], %s does not deliver what this call selects (alone in a fresh process it does): %s"
+                                % (before, _describe_op(root, ops[n], entry), first[2]), case))
+                    continue
+            res += found
+        return res, len(runs)
+    except Exception as e:  # noqa
+        return [("D", "calls:not-observed", "the history could not be replayed: %s: %s" % (type(e).__name__, str(e)[:200]), case0)], 0
+
+
 def _show(spec):
     if spec["form"] == "none":
         return "unset"
@@ -720,19 +936,23 @@ def _show(spec):
     return repr(list(spec["v"]))
 
 
-def _mosaic(out, level):
-    """The deepest tile level stitched into one array (row 0 at the top), NaN where there is no tile."""
+def _deepest_pixels(out, level):
+    """The pixels of the deepest tile level that hold data: (rows, columns, values) in the pixel frame of that level (row
+    0 at the top).  Tile by tile, so that a tiling that came out much deeper than the inputs warrant is still read."""
     import glob
     import numpy as np
     from astropy.io import fits
-    n = 256 * 2 ** level
-    full = np.full((n, n), np.nan)
-    for p in glob.glob(os.path.join(out, str(level), "*", "*.fits")):
+    ys, xs, vs = [np.zeros(0, dtype=np.int64)], [np.zeros(0, dtype=np.int64)], [np.zeros(0)]
+    for p in sorted(glob.glob(os.path.join(out, str(level), "*", "*.fits"))):
         y = int(os.path.basename(os.path.dirname(p)))
         x = int(os.path.basename(p).split("_")[1].split(".")[0])
         with fits.open(p) as hl:
-            full[256 * y:256 * (y + 1), 256 * x:256 * (x + 1)] = hl[0].data[::-1]      # FITS tiles are stored bottom-up
-    return full
+            data = np.asarray(hl[0].data, dtype=np.float64)[::-1]      # FITS tiles are stored bottom-up
+        yy, xx = np.nonzero(np.isfinite(data))
+        ys.append(yy + 256 * y)
+        xs.append(xx + 256 * x)
+        vs.append(data[yy, xx])
+    return np.concatenate(ys), np.concatenate(xs), np.concatenate(vs)
 
 
 def check_tiling(out, level, rec, mode, case):
@@ -740,56 +960,68 @@ def check_tiling(out, level, rec, mode, case):
     import numpy as np
     exp, sky, tiling = rec["exp"], rec["sky"], rec["tiling"]
     res = []
-    full = _mosaic(out, level)
-    fin = np.isfinite(full)
+    py, px, pv = _deepest_pixels(out, level)
     if tiling["aligned"]:
         # inputs on one pixel grid: pixels are copied, so the count per value is exact
-        v, c = np.unique(full[fin], return_counts=True)
+        v, c = np.unique(pv, return_counts=True)
         counts = dict(zip(v.tolist(), c.tolist()))
         want = {float(e["val"]): e["shape"][0] * e["shape"][1] for e in exp}
         if counts != want:
             res.append(("V", "%s:wrong-pixels" % mode, "deepest tile level holds pixel values %s, the selected HDUs hold %s" % (counts, want), case))
         return res
-    # inputs of different pixel scale: each is resampled (a constant image stays constant) onto the finest grid
+    # inputs of different pixel scale or reference point: each is resampled (a constant image stays constant) onto the finest grid
     unit = float(tiling["unit"])
     want = {}
     for e, sk in zip(exp, sky):
         want[float(e["val"])] = sk
-    vals = np.round(full[fin])
-    if np.abs(full[fin] - vals).max(initial=0.0) > 1e-3:
-        res.append(("V", "%s:wrong-pixels" % mode, "the tiling holds pixel values that are no input's value: %s" % (np.unique(full[fin])[:8],), case))
+    vals = np.round(pv)
+    if np.abs(pv - vals).max(initial=0.0) > 1e-3:
+        res.append(("V", "%s:wrong-pixels" % mode, "the tiling holds pixel values that are no input's value: %s" % (np.unique(pv)[:8],), case))
         return res
     present = set(np.unique(vals).tolist())
     if present != set(want):
         res.append(("V", "%s:wrong-pixels" % mode, "the tiling of inputs %s (finest scale first? %s) shows the values %s; the selected HDUs hold %s"
                     % (rec["lay"], [e["cdelt"][1] for e in exp], sorted(present), sorted(want)), case))
         return res
+    if len(want) != len(exp):
+        return res          # one (file, HDU) selected at two positions: which copy shows is not judged
     place = {}
     for v, sk in want.items():
-        ys, xs = np.nonzero(fin & (np.abs(full - v) < 0.5))
-        place[v] = (xs.mean(), ys.mean(), len(xs))
+        sel = np.abs(pv - v) < 0.5
+        place[v] = (px[sel].mean(), py[sel].mean(), int(sel.sum()))
         area = sk["w"] * sk["h"] / (unit * unit)
-        if not 0.6 * area <= len(xs) <= 1.4 * area:
+        if not 0.6 * area <= place[v][2] <= 1.4 * area:
             res.append(("V", "%s:misplaced" % mode, "value %s covers %d pixels of the tiling, the selected HDU covers %s x %s"
-                        % (v, len(xs), sk["w"] / unit, sk["h"] / unit), case))
+                        % (v, place[v][2], sk["w"] / unit, sk["h"] / unit), case))
     vs = sorted(want)
     for a in vs[1:]:
-        # displacement between two inputs (the mosaic frame may be rotated to fit the inputs tightly, so: the distance, and
-        # the side along x, where the encoding separates the inputs)
+        # displacement between two inputs (the mosaic frame may be rotated to fit the inputs tightly, so: the distance, and -
+        # when the inputs lie side by side along x, where the first encoding separates them - the side)
         dx = place[a][0] - place[vs[0]][0]
         dy = place[a][1] - place[vs[0]][1]
         ex = (want[a]["cx2"] - want[vs[0]]["cx2"]) / (2 * unit)
         ey = -(want[a]["cy2"] - want[vs[0]]["cy2"]) / (2 * unit)
-        if abs((dx * dx + dy * dy) ** 0.5 - (ex * ex + ey * ey) ** 0.5) > 2 or dx * ex <= 0:
+        side = abs(ex) > 4 * abs(ey) and dx * ex <= 0
+        if abs((dx * dx + dy * dy) ** 0.5 - (ex * ex + ey * ey) ** 0.5) > 2 or side:
             res.append(("V", "%s:misplaced" % mode, "value %s lies (%.1f, %.1f) pixels from value %s in the tiling, its HDU lies (%.1f, %.1f) from that one on the sky"
                         % (a, dx, dy, vs[0], ex, ey), case))
     return res
 
 
-def e2e_case(args):
-    """The real tilers end to end: the deepest tile level shows every input's selected HDU, at its own place."""
-    root, idx, rec, mode = args
-    repo.setup()
+def _scale_poll_timeouts(cap=0.25):
+    """The worker processes of the parallel tilers poll their queue with time-outs of 1 to 10 seconds and leave after a
+    time-out that follows the end signal: a run of two tiny images waits 10 s or more for nothing.  In the throw-away
+    process that makes such a run, the time-out of every queue poll is capped (time is scaled, the protocol is as it is)."""
+    import multiprocessing.queues as mq
+    orig = mq.Queue.get
+
+    def get(self, block=True, timeout=None):
+        return orig(self, block, timeout if timeout is None else min(timeout, cap))
+    mq.Queue.get = get
+
+
+def _e2e_body(root, idx, rec, mode, par):
+    """One end-to-end tiling (par = the `parallel` argument / --parallelism) read back and judged.  -> findings"""
     import contextlib
     import glob
     import io
@@ -798,9 +1030,12 @@ def e2e_case(args):
     os.environ["SLURM_NPROCS"] = "1"      # toasty's own knob: the cascade inside tile_fits takes no `parallel` argument
     hs, ks, cli, exp = rec["hs"], rec["ks"], rec["cli"], rec["exp"]
     paths = input_paths(root, exp)
-    out = os.path.join(root, "e2e-%s-%d" % (mode, idx))
-    case = {"entry": mode, "layouts": rec["lay"], "hdu_index": hs, "wcs_key": ks, "expected": exp, "sky": rec["sky"], "tiling": rec["tiling"]}
+    key = mode if par == 1 else mode + "-parallel"
+    out = os.path.join(root, "e2e-%s-%d-p%d" % (mode, idx, par))
+    case = {"entry": key, "parallel": par, "layouts": rec["lay"], "hdu_index": hs, "wcs_key": ks, "expected": exp, "sky": rec["sky"], "tiling": rec["tiling"]}
     res = []
+    if par > 1:
+        _scale_poll_timeouts()
     try:
         with warnings.catch_warnings(), contextlib.redirect_stdout(io.StringIO()) as sink, contextlib.redirect_stderr(io.StringIO()):
             warnings.simplefilter("ignore")
@@ -810,17 +1045,17 @@ def e2e_case(args):
                 from toasty.fits_tiler import FitsTiler
                 coll = C.load(list(paths), **_kwargs(hs, ks))
                 t = FitsTiler(coll, out_dir=out, tiling_method=toasty.TilingMethod.TAN)
-                t.tile(parallel=1)
+                t.tile(parallel=par)
                 level = t.builder.imgset.tile_levels
                 for gen, what in (("d", "descriptions"), ("i", "images")):
                     found = _judge(_one_pass(coll, gen)[0], what, exp, paths, hs["form"], ks["form"])
-                    for sev, key, msg in found:
+                    for sev, key_, msg in found:
                         if sev == "V":
                             res.append(("V", "tiler-history:later-enumeration:" + what,
                                         "after FitsTiler(coll, tiling_method=TAN).tile() on the same collection object: " + msg, case))
                             break
             elif mode == "tile_fits-e2e":
-                _o, bld = toasty.tile_fits(list(paths), out_dir=out, parallel=1, **_kwargs(hs, ks))
+                _o, bld = toasty.tile_fits(list(paths), out_dir=out, parallel=par, **_kwargs(hs, ks))
                 level = bld.imgset.tile_levels
             elif mode == "view-e2e":
                 # `toasty view --tile-only` writes next to the first input: give it a directory of its own
@@ -830,7 +1065,7 @@ def e2e_case(args):
                 for n, p_ in enumerate(paths):
                     links.append(os.path.join(out, "in%d.fits" % n))
                     os.symlink(p_, links[-1])
-                argv = ["view", "--tile-only", "--parallelism", "1"] + _cli_opts(cli, hs, ks) + links
+                argv = ["view", "--tile-only", "--parallelism", str(par)] + _cli_opts(cli, hs, ks) + links
                 case["argv"] = argv[:-len(links)]
                 tcli.entrypoint(argv)
                 wtml = [l.split(None, 1)[1].strip() for l in sink.getvalue().splitlines() if l.startswith("WTML:")]
@@ -838,23 +1073,60 @@ def e2e_case(args):
                 level = max(int(os.path.basename(d)) for d in glob.glob(os.path.join(out, "[0-9]*")))
             else:
                 from toasty import cli as tcli
-                argv = ["tile-multi-tan", "--parallelism", "1", "--outdir", out] + _cli_opts(cli, hs, ks) + list(paths)
-                case["argv"] = argv[3:]
+                argv = ["tile-multi-tan", "--parallelism", str(par), "--outdir", out] + _cli_opts(cli, hs, ks) + list(paths)
+                case["argv"] = argv[1:-len(paths)]
                 tcli.entrypoint(argv)
                 level = max(int(os.path.basename(d)) for d in glob.glob(os.path.join(out, "[0-9]*")))
     except BaseException as e:  # noqa
-        res.append(("V", "%s:hdu-%s:raises" % (mode, hs["form"]), "tiling an in-scope selection (hdu_index %s, wcs_key %s) fails with %s: %s"
-                    % (_show(hs), _show(ks), type(e).__name__, str(e)[:160]), case))
+        res.append(("V", "%s:hdu-%s:raises" % (key, hs["form"]), "tiling an in-scope selection (hdu_index %s, wcs_key %s, parallel=%d) fails with %s: %s"
+                    % (_show(hs), _show(ks), par, type(e).__name__, str(e)[:160]), case))
         return res
-    return res + check_tiling(out, level, rec, mode, case)
+    try:
+        return res + check_tiling(out, level, rec, key, case)
+    except Exception as e:  # noqa
+        return res + [("D", "%s:not-observed" % key, "the tiles could not be read back: %s: %s" % (type(e).__name__, str(e)[:200]), case)]
+
+
+PAR_BACKSTOP = 1800      # seconds; a backstop for a parallel tiling that never returns (normal duration: a few seconds)
+
+
+def e2e_case(args):
+    """The real tilers end to end: the deepest tile level shows every input's selected HDU, at its own place.
+    args = (root, idx, rec, mode) for the serial route, (root, idx, rec, mode, par) for `parallel` = par > 1: the same
+    collection is tiled serially and with par worker processes (a throw-away process group each) and both are judged."""
+    root, idx, rec, mode = args[:4]
+    par = args[4] if len(args) > 4 else 1
+    repo.setup()
+    case = {"entry": mode, "parallel": par, "layouts": rec["lay"], "hdu_index": rec["hs"], "wcs_key": rec["ks"]}
+    try:
+        if par == 1:
+            return _e2e_body(root, idx, rec, mode, 1)
+        from lib import guard
+        res = []
+        quiet = {}
+        for p_ in (1, par):
+            kind, val = guard.run_guarded(lambda p_=p_: _e2e_body(root, idx, rec, mode, p_), PAR_BACKSTOP)
+            if kind == "ok":
+                quiet[p_] = not any(f[0] == "V" for f in val)
+                if p_ > 1 and not quiet[p_] and quiet.get(1):
+                    val = [(f[0], f[1], "the serial route (parallel=1) shows every input's selected HDU at its place; with parallel=%d: %s" % (p_, f[2]), f[3])
+                           if f[0] == "V" else f for f in val]
+                res += val
+            elif kind == "timeout":
+                res.append(("D", "%s:not-observed" % mode, "the tiling with parallel=%d did not return within the %d s backstop (not judged here)" % (p_, PAR_BACKSTOP), case))
+            else:
+                res.append(("D", "%s:not-observed" % mode, "the tiling with parallel=%d could not be observed: %s" % (p_, val), case))
+        return res
+    except Exception as e:  # noqa
+        return [("D", "%s:not-observed" % mode, "the tiling could not be observed: %s: %s" % (type(e).__name__, str(e)[:200]), case)]
 
 
 # ---------------------------------------------------------------------------------------------------
 
-def tlc_cases(ctx, name, layouts_text, maxfiles, hforms=ALL_FORMS, kforms=ALL_FORMS, theorems=True, disjoint=True, workers=4):
+def tlc_cases(ctx, name, layouts_text, maxfiles, hforms=ALL_FORMS, kforms=ALL_FORMS, theorems=True, disjoint=True, workers=4, flat=False):
     outp = os.path.join(ctx.scratch, "files-%s.json" % name)
-    r = ctx.tlc("MCCollection", extra={"MCCollection.tla": mc_module(layouts_text, hforms, kforms, theorems, disjoint)},
-                cfg_text=CFG % maxfiles, env={"OUT": outp}, workers=workers, timeout=1800)
+    r = ctx.tlc("MCCollection", extra={"MCCollection.tla": mc_module(layouts_text, hforms, kforms, theorems, disjoint, flat)},
+                cfg_text=CFG % maxfiles, env={"OUT": outp}, workers=workers, timeout=3600)
     recs = r.json_lines("R")
     if not recs or not os.path.exists(outp):
         ctx.machinery("TLC emitted no cases for %s" % name)
@@ -870,6 +1142,82 @@ def tlc_cases(ctx, name, layouts_text, maxfiles, hforms=ALL_FORMS, kforms=ALL_FO
     return root, recs
 
 
+def pick_histories(ctx, recs):
+    """A stratified subset of TLC's histories of load calls: per (how the last load relates to the earlier operations,
+    whether a path was rewritten, forms and lengths of the loads) a few, chosen by the seed."""
+    strata = {}
+    for h in recs:
+        loads = [o for o in h["ops"] if o["op"] == "load"]
+        cls = (tuple(loads[-1]["rel"]), len(h["ops"]), tuple((o["hs"]["form"], o["ks"]["form"], len(o["names"])) for o in loads))
+        strata.setdefault(cls, []).append(h)
+    per = 2 if ctx.quick else 12
+    out = []
+    for cls in sorted(strata):
+        lst = strata[cls]
+        k = min(per, len(lst))
+        step = len(lst) // k
+        off = ctx.rng.randrange(step)
+        out += [lst[off + i * step] for i in range(k)]
+    ctx.note("history_strata", len(strata))
+    return out
+
+
+def pick_parallel(ctx, root, recs):
+    """The collections tiled serially AND with worker processes: two different files, per-file entries that DIFFER and are
+    each in scope for every file (TLC's CrossValid), so that nothing but the pixels tells which HDU / key a route took.
+    -> [(root, idx, rec, mode, par)]"""
+    def two(r):
+        return len(r["lay"]) == 2 and r["lay"][0] != r["lay"][1] and r["cross"]
+
+    def hdiff(r):
+        return r["hs"]["form"] == "each" and r["exp"][0]["hdu"] != r["exp"][1]["hdu"]
+
+    def kdiff(r):
+        return r["ks"]["form"] == "each" and r["exp"][0]["key"] != r["exp"][1]["key"]
+    classes = [
+        # per-file HDUs, one pixel grid: MultiTanProcessor through tile_fits
+        ("tile_fits-e2e", lambda r: two(r) and hdiff(r) and not kdiff(r) and r["tiling"]["aligned"]),
+        # per-file HDUs and per-file keys: MultiWcsProcessor through FitsTiler
+        ("tiler-history", lambda r: two(r) and hdiff(r) and kdiff(r)),
+        # per-file keys: MultiWcsProcessor through `toasty view --parallelism`
+        ("view-e2e", lambda r: two(r) and kdiff(r) and r["hs"]["form"] == "one"),
+        # one HDU index and one key for all: `toasty tile-multi-tan --parallelism`
+        ("tile-multi-tan-e2e", lambda r: two(r) and multi_tan_applies(r) and r["tiling"]["aligned"] and r["exp"][0]["hdu"] != 0),
+    ]
+    if not ctx.quick:
+        # per-file HDUs, inputs of different pixel scale: MultiWcsProcessor through tile_fits
+        classes.append(("tile_fits-e2e", lambda r: two(r) and hdiff(r) and not kdiff(r) and r["tiling"]["samesky"] and not r["tiling"]["aligned"]))
+    jobs = []
+    for mode, pred in classes:
+        cands = [r for r in recs if pred(r)]
+        if not cands:
+            ctx.machinery("TLC emitted no collection for the parallel route %s" % mode)
+        for r in ctx.rng.sample(cands, min(len(cands), 1 if ctx.quick else 4)):
+            jobs.append((root, len(jobs), r, mode, 2 if (ctx.quick or len(jobs) % 2 == 0) else 3))
+    return jobs
+
+
+def _not_observed(name, args, e):
+    rec = args[2]
+    case = {"layouts": rec.get("lay"), "hdu_index": rec.get("hs", {"form": "none", "v": []}), "wcs_key": rec.get("ks", {"form": "none", "v": []})}
+    return ("D", "not-observed", "%s could not be completed: %s: %s" % (name, type(e).__name__, str(e)[:200]), case)
+
+
+def replay_case(args):
+    """A job of the pool never raises: what cannot be observed is reported as drift."""
+    try:
+        return _replay_case(args)
+    except Exception as e:  # noqa
+        return [_not_observed("replay_case", args, e)], False, False
+
+
+def reuse_case(args):
+    try:
+        return _reuse_case(args)
+    except Exception as e:  # noqa
+        return [_not_observed("reuse_case", args, e)], True, False
+
+
 def run(ctx):
     repo.setup(ctx)
     import multiprocessing as mp
@@ -880,14 +1228,17 @@ def run(ctx):
                 "crval, crpix) per input path plus the files to write; each case is loaded by the real code through "
                 "load / SimpleFitsCollection / `toasty view` argv / tile_fits and compared. non-trivial = some file contributes "
                 "an HDU other than 0 or a key other than ' '")
-    # the three model-checking runs every tier needs are independent: run them side by side (2 + 3 + 2 TLC workers)
+    # the model-checking runs every tier needs are independent: run them side by side
     import concurrent.futures as cf
-    with cf.ThreadPoolExecutor(4) as tp:
+    with cf.ThreadPoolExecutor(6) as tp:
         f_h = tp.submit(histories, ctx)
         f_5 = tp.submit(tlc_cases, ctx, "five3", LAYOUTS_5, 3, workers=3)
         f_c = tp.submit(tlc_cases, ctx, "cubes1", CUBES_3, 1, theorems=False, workers=2)
         f_r = tp.submit(tlc_reuse, ctx)
+        f_k = tp.submit(tlc_calls, ctx)
+        f_f = tp.submit(tlc_cases, ctx, "flat2", FLAT_3, 2, hforms=("one", "each"), theorems=False, workers=1, flat=True)
         hists, five3, cubes1, (rroot, rrecs) = f_h.result(), f_5.result(), f_c.result(), f_r.result()
+        (kroot, krecs), (froot, frecs) = f_k.result(), f_f.result()
     cmds = cli_selection_commands()
     ctx.note("cli_subcommands_with_selection_options", cmds)
     for cmd in sorted(cmds):
@@ -979,10 +1330,20 @@ def run(ctx):
             continue
         ents = [e for e in REUSE_ENTRIES if e != "cli-multi-tan" or multi_tan_applies(rec)]
         rjobs.append((rroot, len(rjobs), rec, ents[len(rjobs) % len(ents)], hists))
-    with mp.Pool(8) as pool:
-        results = pool.map(replay_case, jobs, chunksize=32)
-        rresults = pool.map(reuse_case, rjobs, chunksize=16)
-        e2e_results = pool.map(e2e_case, e2e, chunksize=1)
+    # histories of load calls in one process (quick: a stratified subset - per relation of the last load to the earlier
+    # operations and per form of the selections -, rotated by the seed; thorough: a larger one)
+    kjobs = [(kroot, n_, h) for n_, h in enumerate(pick_histories(ctx, krecs))]
+    # the parallel tiling routes: collections whose per-file entries differ, serial and with worker processes
+    pjobs = pick_parallel(ctx, froot, frecs)
+    # worker processes that may have children of their own (the parallel tilers start theirs); the runs with real worker
+    # processes go first, they take longest
+    with cf.ProcessPoolExecutor(6, mp_context=mp.get_context("fork")) as pool:
+        f_p = [pool.submit(e2e_case, j) for j in pjobs]
+        results = list(pool.map(replay_case, jobs, chunksize=32))
+        rresults = list(pool.map(reuse_case, rjobs, chunksize=16))
+        kresults = list(pool.map(calls_case, kjobs, chunksize=8))
+        e2e_results = list(pool.map(e2e_case, e2e, chunksize=1))
+        presults = [f.result() for f in f_p]
     nrep = 0
     for (res, nontrivial, repeated), (r_, idx, rec, ents, _h), name in zip(results, jobs, names):
         nrep += 1 if repeated else 0
@@ -994,6 +1355,26 @@ def run(ctx):
     for res in e2e_results:
         ctx.count()
         _report(ctx, res)
+    for res, job in zip(presults, pjobs):
+        ctx.count(2)
+        ctx.trace_ok()
+        ctx.distinct(("parallel", job[3], job[4], tuple(job[2]["lay"]), _show(job[2]["hs"]), _show(job[2]["ks"])))
+        _report(ctx, res)
+    nrel = {}
+    for (res, nloads), (_r, _i, h) in zip(kresults, kjobs):
+        ctx.count(nloads)
+        if nloads:
+            ctx.trace_ok()
+        last = h["ops"][-1]
+        for name, flag in zip(("other_key_before", "rewritten_file", "other_hdu_before"), last["rel"]):
+            if flag:
+                nrel[name] = nrel.get(name, 0) + 1
+        ctx.distinct(("calls", json.dumps([(o["op"], o["names"], o["cont"], _show(o["hs"]), _show(o["ks"])) for o in h["ops"]])))
+        _report(ctx, res)
+    ctx.note("histories_of_load_calls_replayed", len(kjobs))
+    ctx.note("histories_whose_last_load_follows", nrel)
+    ctx.note("parallel_tiling_collections", [{"route": j[3], "parallel": j[4], "files": j[2]["lay"], "hdu_index": _show(j[2]["hs"]),
+                                              "wcs_key": _show(j[2]["ks"]), "one_pixel_grid": j[2]["tiling"]["aligned"]} for j in pjobs])
     nre = 0
     for (res, _nt, differs), (_r, _i, rec, ent, _h) in zip(rresults, rjobs):
         ctx.count(2)
